@@ -69,6 +69,9 @@ Definition spec_bounds (l : list compE) (rho : Q) (lam : expr) : list bounds * b
 Inductive c03case :=
 | CCall (call : Z) (s : struct) (density natural_density : option Q)
         (wkind : Z) (vector : bool) (wvals : list Q) (obs : pyval)
+(* the compound is a Formula object with density [own] (None = unknown); call 4 = compound.neutron_sld(...) *)
+| CCallF (call : Z) (s : struct) (own density natural_density : option Q)
+         (wkind : Z) (vector : bool) (wvals : list Q) (obs : pyval)
 | CConv (kind : Z) (x : Q) (obs : pyval)      (* 0 neutron_wavelength(E), 1 neutron_energy(lambda),
                                                  2 neutron_wavelength_from_velocity(v), 3 ENERGY_FACTOR,
                                                  4 VELOCITY_FACTOR *)
@@ -174,6 +177,24 @@ Definition call_verdicts (D : ndata) (call : Z) (s : struct) (density natural_de
       end
   end.
 
+(* a Formula object with its own density: the model applies formula()'s rule, the documented result
+   uses the keyword when one is given; Formula.neutron_sld (call 4) returns (None, None, None) when the
+   formula has no density *)
+Definition formula_verdicts (D : ndata) (call : Z) (s : struct) (own density natural_density : option Q)
+           (wkind : Z) (vector : bool) (wvals : list Q) (obs : pyval) : list (string * bool) :=
+  let m := formula_density_args own density natural_density in
+  let sp := spec_density_args own density natural_density in
+  if Z.eqb call 4 then
+    match own with
+    | None => [("Formula.neutron_sld without density", is_none3 obs)]
+    | Some _ => call_verdicts D 1 s own None wkind vector wvals obs
+    end
+  else
+    (("documented density rule = formula() rule",
+      (match fst m, fst sp with Some a, Some b => Qeq_bool a b | None, None => true | _, _ => false end
+       && match snd m, snd sp with Some a, Some b => Qeq_bool a b | None, None => true | _, _ => false end)%bool)
+     :: call_verdicts D call s (fst m) (snd m) wkind vector wvals obs)%list.
+
 (* conversions: relative 2^-40 on the value (the square for the sqrt) *)
 Definition conv_verdicts (kind : Z) (x : Q) (obs : pyval) : list (string * bool) :=
   match pyfloat obs with
@@ -195,6 +216,7 @@ Definition conv_verdicts (kind : Z) (x : Q) (obs : pyval) : list (string * bool)
 Definition verdicts (D : ndata) (c : c03case) : list (string * bool) :=
   match c with
   | CCall call s de nd wk vec wv obs => call_verdicts D call s de nd wk vec wv obs
+  | CCallF call s own de nd wk vec wv obs => formula_verdicts D call s own de nd wk vec wv obs
   | CConv k x obs => conv_verdicts k x obs
   | CConsts => [("regenerated constants readable", consts_ok)]
   end.
